@@ -970,3 +970,29 @@ def while_true_breaks(fn) -> int:
                 ast.fix_missing_locations(x)
                 count += 1
     return count
+
+
+def integer_attributes(modules) -> set:
+    """attribute names that hold integers: somewhere assigned an int constant, int(...) or len(...)"""
+    out = set()
+    for m in modules:
+        for n in ast.walk(m):
+            if isinstance(n, ast.Assign) and len(n.targets) == 1 and isinstance(n.targets[0], ast.Attribute):
+                v = n.value
+                if (isinstance(v, ast.Constant) and type(v.value) is int) or (isinstance(v, ast.Call) and isinstance(v.func, ast.Name) and v.func.id in ("int", "len")):
+                    out.add(n.targets[0].attr)
+    return out
+
+
+def explicit_to_augmented(fn, int_attrs: set) -> int:
+    """`x.c = x.c + e` / `x.c = x.c - e`  ->  `x.c += e` / `x.c -= e`  for integer counters (immutable values: the two forms are the same)"""
+    count = 0
+    for body in _stmt_blocks(fn):
+        for i, s in enumerate(body):
+            if isinstance(s, ast.Assign) and len(s.targets) == 1 and isinstance(s.targets[0], ast.Attribute) and s.targets[0].attr in int_attrs \
+                    and isinstance(s.value, ast.BinOp) and isinstance(s.value.op, (ast.Add, ast.Sub)) and src(s.value.left) == src(s.targets[0]):
+                new = ast.AugAssign(target=s.targets[0], op=s.value.op, value=s.value.right)
+                ast.copy_location(new, s)
+                body[i] = new
+                count += 1
+    return count
